@@ -372,7 +372,8 @@ def run_driver(lines: Iterable[dict[str, Any]], timeout: float = 3600.0, exe: st
     )
     if proc.returncode != 0:
         raise DriverError(f"driver exit {proc.returncode}: {proc.stderr.decode()[:2000]}")
-    out = [json.loads(x) for x in proc.stdout.decode().splitlines() if x.strip()]
+    # split on "\n" only: str.splitlines() also splits at U+0085 / U+2028 / U+2029 / FS..US, which the driver writes raw inside JSON strings
+    out = [json.loads(x) for x in proc.stdout.decode().split("\n") if x.strip()]
     n = payload.count("\n")
     if len(out) != n:
         raise DriverError(f"driver answered {len(out)} of {n} lines: {proc.stderr.decode()[:2000]}")
